@@ -212,24 +212,44 @@ func (m *Mutex) Unlock() {
 
 // ---- RWMutex ---------------------------------------------------------------
 
+// RWMutex follows the algorithm of Go's sync.RWMutex, because its fairness rules
+// are observable: writers queue on an inner writer lock; the writer that holds it
+// is "announced" -- from then on new readers wait, and the writer waits for the
+// readers that were already in to leave; when it unlocks, every reader that
+// queued up meanwhile is admitted at once, before the next writer can announce
+// itself. (A goroutine that takes the read lock twice therefore deadlocks as
+// soon as a writer arrives in between, as in Go.)
 type RWMutex struct {
-	real    sync.RWMutex
-	w       bool
-	readers int
+	real      sync.RWMutex
+	w         bool // a writer holds the lock
+	announced bool // a writer holds the inner writer lock: new readers wait
+	readers   int  // readers in, including readers admitted in advance (granted)
+	rwait     int  // readers waiting for the announced writer to finish
+	granted   int  // waiting readers admitted by the last writer's Unlock, not yet resumed
 }
 
 //go:norace
 func rlockH(s *simrt.Sim, t *simrt.Task, r *simrt.Req) simrt.Status {
 	m := (*RWMutex)(r.P)
-	if m.w {
+	if r.I1 == 1 && m.granted > 0 {
+		// admitted by a writer's Unlock while it waited
+		m.granted--
+		s.Ev(t, "rlock", ord(s, r.P), int64(m.readers))
+		return simrt.Done
+	}
+	if m.announced {
 		if r.I1 == 0 {
 			r.I1 = 1
+			m.rwait++
 			s.Ev(t, "rlock-wait", ord(s, r.P), 0)
 			s.Probes["rlock_contended"]++
 		}
 		t.Ready = rlockReady
 		t.BlockedOn = "rwmutex(read)"
 		return simrt.Block
+	}
+	if r.I1 == 1 {
+		m.rwait-- // (cannot happen: waiting readers are always granted first)
 	}
 	m.readers++
 	if m.readers > 1 {
@@ -240,19 +260,37 @@ func rlockH(s *simrt.Sim, t *simrt.Task, r *simrt.Req) simrt.Status {
 }
 
 //go:norace
-func rlockReady(s *simrt.Sim, t *simrt.Task) bool { return !(*RWMutex)(t.ReqP()).w }
+func rlockReady(s *simrt.Sim, t *simrt.Task) bool {
+	m := (*RWMutex)(t.ReqP())
+	return m.granted > 0 || !m.announced
+}
 
 //go:norace
 func wlockH(s *simrt.Sim, t *simrt.Task, r *simrt.Req) simrt.Status {
 	m := (*RWMutex)(r.P)
-	if m.w || m.readers > 0 {
+	// phase 1 (r.I2 == 0): the inner writer lock; phase 2: wait for the readers to leave
+	if r.I2 == 0 {
+		if m.announced {
+			if r.I1 == 0 {
+				r.I1 = 1
+				s.Ev(t, "wlock-wait", ord(s, r.P), 0)
+				s.Probes["wlock_contended"]++
+			}
+			t.Ready = wlockReady
+			t.BlockedOn = "rwmutex(write)"
+			return simrt.Block
+		}
+		m.announced = true
+		r.I2 = 1
+	}
+	if m.readers > 0 {
 		if r.I1 == 0 {
 			r.I1 = 1
 			s.Ev(t, "wlock-wait", ord(s, r.P), 0)
 			s.Probes["wlock_contended"]++
 		}
-		t.Ready = wlockReady
-		t.BlockedOn = "rwmutex(write)"
+		t.Ready = wlockReady2
+		t.BlockedOn = "rwmutex(write, readers inside)"
 		return simrt.Block
 	}
 	m.w = true
@@ -264,7 +302,13 @@ func wlockH(s *simrt.Sim, t *simrt.Task, r *simrt.Req) simrt.Status {
 //go:norace
 func wlockReady(s *simrt.Sim, t *simrt.Task) bool {
 	m := (*RWMutex)(t.ReqP())
-	return !m.w && m.readers == 0
+	return !m.announced
+}
+
+//go:norace
+func wlockReady2(s *simrt.Sim, t *simrt.Task) bool {
+	m := (*RWMutex)(t.ReqP())
+	return m.readers == 0
 }
 
 //go:norace
@@ -329,6 +373,11 @@ func (m *RWMutex) Unlock() {
 		panic("sync: Unlock of unlocked RWMutex")
 	}
 	m.w = false
+	m.announced = false
+	// every reader that queued up behind this writer is in now
+	m.readers += m.rwait
+	m.granted += m.rwait
+	m.rwait = 0
 	m.real.Unlock()
 	var r simrt.Req
 	r.P = unsafe.Pointer(m)
@@ -344,10 +393,11 @@ func (m *RWMutex) TryLock() bool {
 		return false
 	}
 	simrt.Yield(-2)
-	if m.w || m.readers > 0 {
+	if m.w || m.announced || m.readers > 0 {
 		return false
 	}
 	m.w = true
+	m.announced = true
 	m.real.Lock()
 	return true
 }
@@ -361,7 +411,7 @@ func (m *RWMutex) TryRLock() bool {
 		return false
 	}
 	simrt.Yield(-2)
-	if m.w {
+	if m.w || m.announced {
 		return false
 	}
 	m.readers++
